@@ -1070,8 +1070,40 @@ def prebuild(ctx):
     generate_and_build(ctx)
 
 
+def replay(ctx):
+    """--replay <file>: re-execute exactly the recorded failing input of a glue-type finding (source + configuration +
+    calldata + expected outcome) and report whether it still fails."""
+    import json
+    rec = json.loads(Path(ctx.replay).read_text())
+    det = rec.get("detail", {})
+    if not all(k in det for k in ("source", "config", "calldata", "expected")) or det.get("calldata") in (None, "?"):
+        ctx.log("replay: this record has no (source, config, calldata); running the full check instead")
+        return False
+    by_name = {c.name: c for c in configs("thorough") + configs("quick") + quick_glue_configs()}
+    cfg = by_name.get(det["config"].split(" ")[0])
+    if cfg is None:
+        ctx.log(f"replay: unknown configuration {det['config']}")
+        return False
+    out = compile_src(det["source"], cfg, formats=("bytecode",))
+    chain = Chain(cfg.evm)
+    addr = chain.deploy(bytes.fromhex(out["bytecode"][2:]))
+    got = call_word(chain, addr, bytes.fromhex(det["calldata"]))
+    obs = "revert" if got == -1 else hex(got)
+    exp = det["expected"]
+    still = not (obs == exp or (exp.startswith("compile-time") and got == -1))
+    ctx.log(f"replay {rec.get('name')}: expected {exp}, observed {obs} -> {'STILL FAILING' if still else 'passes now'}")
+    if still:
+        ctx.violation("failing-input", rec.get("name", "replayed finding"), dict(det, observed=obs), key=rec.get("key"))
+    ctx.corr["evaluations"] = 1
+    ctx.corr["distinct_nontrivial"] = 1
+    ctx.corr["rule"] = "single replayed case"
+    return True
+
+
 def run(ctx):
     t0 = time.time()
+    if getattr(ctx, "replay", None) and replay(ctx):
+        return
     g = generate_and_build(ctx)
     gen_err, ltempl, vtempl, lconv, vconv, vextra, lpow, vpow = (g[k] for k in
         ("gen_err", "ltempl", "vtempl", "lconv", "vconv", "vextra", "lpow", "vpow"))
@@ -1269,9 +1301,14 @@ def run(ctx):
             found = True
             ctx.violation("failing-input", f"convert {f['convert']} under {f['config']} is not exact-or-revert", f,
                           key=f"convert-glue:{f['convert']}:{f['config']}")
-    if venom_extra_conversions(ctx, vextra):
+    witness = venom_extra_conversions(ctx, vextra)
+    if witness:
         found = True
     dis = convert_acceptance_differential(ctx)
+    if vextra and not witness and not dis:
+        # the two convert lowerings disagree on which pairs they accept, but no sampled source program shows it
+        ctx.violation("correspondence-broken", "venom lower_convert accepts type pairs that _convert.convert rejects",
+                      {"count": len(vextra), "examples": sorted({f"{c_src_name(x[2])}->{c_src_name(x[3])}" for x in vextra})[:40]})
     venom_only = [d for d in dis if d[2][1] == "compiles"]
     if venom_only and not ctx.is_known("venom-convert-accepts:flag->bytes4"):
         found = True
